@@ -49,7 +49,11 @@ def run(tier, seed, t0):
           # the same towards a protocol-abiding server that closes channels / the connection / cancels on its own
           # while the client calls and closes: every caller, Connection::close included, is released
           vlib.run_mc("MC_Conn", "MC_Conn_live_compliant.cfg" if tier == "quick" else "MC_Conn_live_compliant2.cfg",
-                      workers=6, timeout=2400, xmx="8g")]
+                      workers=6, timeout=2400, xmx="8g"),
+          # the socket's hand-over from the handshake loop to the connection loop under edge-triggered readiness:
+          # an end of stream right behind OpenOk is noticed in every chunking (and is not, as the code once was)
+          vlib.run_mc("Handover", "Handover.cfg", workers=2, xmx="1g"),
+          vlib.run_mc("Handover", "Handover_forgive.cfg", workers=1, xmx="1g", expect_violation="EofNoticed")]
     total, writes, hs = baseline()
     rng = random.Random("c05-%d" % seed)
     scn = scenarios.crash_scenarios(total, writes, hs, tier, rng)
